@@ -20,6 +20,13 @@ def small_sweep():
         lab = os.path.basename(pair[0])
         cases += G.sweep(g, d, "gcno", label=lab)
         cases += G.sweep(g, d, "gcda", label=lab)
+    import cgen
+    for pair in G.SMALL[:2]:             # big-endian twins of the two smallest LLVM fixtures (BigEndian reader paths)
+        g, d = G.fixture(pair)
+        g, d = cgen.to_big_endian_gcno(g), cgen.to_big_endian_gcda(d)
+        lab = os.path.basename(pair[0]) + "-be"
+        cases += G.sweep(g, d, "gcno", label=lab)
+        cases += G.sweep(g, d, "gcda", label=lab)
     return cases
 
 
@@ -132,8 +139,12 @@ def run_gcno_part(chk):
             key = c["gcno"][:64] + str(len(c["gcno"]))
             if key not in full:
                 lab = c["mut"][0]
-                pair = [p for p in G.SMALL + G.GCC + G.LARGE if os.path.basename(p[0]) == lab][0]
+                be = lab.endswith("-be")
+                pair = [p for p in G.SMALL + G.GCC + G.LARGE if os.path.basename(p[0]) == (lab[:-3] if be else lab)][0]
                 g, d = G.fixture(pair)
+                if be:
+                    import cgen
+                    g, d = cgen.to_big_endian_gcno(g), cgen.to_big_endian_gcda(d)
                 full[key] = G.run_guarded([G.case(g, [d])], chk.pid)[0]
             if "ok" in full[key]:
                 why = le_counts(G.canon_impl(r), G.canon_impl(full[key]))
@@ -166,7 +177,7 @@ def run_gcno_part(chk):
     return dist
 
 
-RULE = ("gcno/gcda malformed stream: for the three LLVM fixtures and the five GCC fixtures (v6-v10) every prefix and every single 32-bit word replaced by each of "
+RULE = ("gcno/gcda malformed stream: for the three LLVM fixtures, big-endian twins of two of them, and the five GCC fixtures (v6-v10) every prefix and every single 32-bit word replaced by each of "
         "{0,1,2,3,block counts of the file,2^31-1,2^31,2^32-1, the 7 record tags}, for gcno (with and without gcda) and gcda; sampled prefixes/word substitutions of the 9 large "
         "fixtures (up to 2.6 MB); seeded multi-point corruption (2-5 words, optional truncation); each case runs Gcno::compute in a child limited to 1 GiB of address space, "
         "a crashed or timed-out batch is bisected to the single case; outcome must be Ok/Err within 5 s; truncated gcda must not add counts; the model's outcome class is compared on a sample; "
